@@ -224,6 +224,17 @@ theorem requestPlan_read {lim : Limits} (hb : 0 < lim.bufSize) {h : Head} {n : N
     refine ⟨chunkOf_pos lim hb _ _, ?_⟩
     omega)
 
+theorem requestPlan_read_n {lim : Limits} {h : Head} {n : Nat} {chunk : Option Nat} {pre : Bool}
+    {fin : Bytes → Outcome} (hp : requestPlan lim h = .read n chunk pre fin) : n = h.contentLength.toNat := by
+  unfold requestPlan at hp
+  simp only at hp
+  repeat' split at hp
+  all_goals first | (simp at hp; done) | skip
+  all_goals (
+    simp only [Plan.read.injEq] at hp
+    obtain ⟨rfl, _⟩ := hp
+    rfl)
+
 /-- specification of the request phase over a byte stream: the outcome and the unread rest -/
 def reqOutcome (lim : Limits) (h : Head) (s : Bytes) : Outcome × Bytes :=
   match requestPlan lim h with
